@@ -1,3 +1,4 @@
 pub mod ast;
 pub mod inkgen;
 pub mod refint;
+pub mod expr;
